@@ -97,7 +97,7 @@ func C15() *runner.Property {
 		CaseTimeout: 120e9,
 		Cases: func(tier string, seed int64) []runner.Case {
 			r := rng.New(uint64(seed) ^ 0xC15)
-			k := 1
+			k := 3
 			if tier == "thorough" {
 				k = 200
 			}
